@@ -120,11 +120,16 @@ struct Dumper : Visitor {
 
 // ---- raw locations of all fixed-size members (scalars, bools, doubles, arrays) ----
 struct Locator : Visitor {
-    struct Loc { std::string name; uint8_t * p; size_t n; };
+    struct Loc { std::string name; uint8_t * p; size_t n; bool isBool = false; };
+    // change the member to another VALID value of its type (a bool only has two)
+    static void flip(const Loc & L, uint8_t mask) {
+        if (L.isBool) { L.p[0] = (uint8_t) (L.p[0] ? 0 : 1); return; }
+        for (size_t i = 0; i < L.n; i++) L.p[i] ^= mask;
+    }
     std::vector<Loc> locs;
     void u(const std::string & n, void * p, int bytes, bool) override { if (!is_header_field(n)) locs.push_back({n, (uint8_t *) p, (size_t) bytes}); }
     void f64(const std::string & n, double & d) override { locs.push_back({n, (uint8_t *) &d, 8}); }
-    void b(const std::string & n, bool & v) override { locs.push_back({n, (uint8_t *) &v, 1}); }
+    void b(const std::string & n, bool & v) override { locs.push_back({n, (uint8_t *) &v, 1, true}); }
     void str(const std::string &, std::string &) override {}
     void u16str(const std::string &, std::u16string &) override {}
     void vec8(const std::string &, std::vector<uint8_t> &) override {}
